@@ -3,8 +3,13 @@ package simrt
 import (
 	"fmt"
 	"math"
+	"os"
 	"unsafe"
 )
+
+// unmanaged: the process has no scheduler (set by the driver for the
+// non-race coverage build); stubs then behave like the real primitives.
+var unmanaged = os.Getenv("VERIF_UNMANAGED") != ""
 
 // ---------------------------------------------------------------- PRNG
 
@@ -62,6 +67,7 @@ type Policy struct {
 	PoolEvict  float64 `json:"pool_evict,omitempty"`
 	PoolCross  float64 `json:"pool_cross,omitempty"`
 	ClockJumpP float64 `json:"clock_jump_p,omitempty"`
+	TimerP     float64 `json:"timer_p,omitempty"` // per hand-off probability that a sleeping library goroutine's timer fires now
 }
 
 // Trace is the explicit decision record of one run: enough to replay it
@@ -93,6 +99,7 @@ type Faults struct {
 	ClockJump   int64 `json:"clock_jump"`
 	CallerPanic int64 `json:"caller_panic"`
 	ColdStart   int64 `json:"cold_start"`
+	TimerFire   int64 `json:"timer_fire"`
 }
 
 func (f *Faults) Add(o *Faults) {
@@ -105,25 +112,27 @@ func (f *Faults) Add(o *Faults) {
 	f.ClockJump += o.ClockJump
 	f.CallerPanic += o.CallerPanic
 	f.ColdStart += o.ColdStart
+	f.TimerFire += o.TimerFire
 }
 
 // RunResult is what one run produced.
 type RunResult struct {
-	Results   [][]string
-	CallSteps [][]int64 // steps each call took (task-local step counter)
-	Steps     int64
-	Switches  int64
-	Overlap   bool // two calls of different tasks were in flight at once
-	Trace     Trace
-	SchedHash uint64
-	Faults    Faults
-	Deadlock  bool
-	NoReturn  bool
-	Detail    string
-	RaceDelta int
-	Spawned   int
-	Leaked    int
-	Mutated   []MutatedValue
+	Results    [][]string
+	CallSteps  [][]int64 // steps each call took (task-local step counter)
+	Steps      int64
+	Switches   int64
+	Overlap    bool // two calls of different tasks were in flight at once
+	Trace      Trace
+	SchedHash  uint64
+	Faults     Faults
+	Deadlock   bool
+	NoReturn   bool
+	Detail     string
+	RaceDelta  int
+	Spawned    int
+	Leaked     int
+	Background int // library goroutines adopted from earlier runs / package init
+	Mutated    []MutatedValue
 }
 
 // MutatedValue: a string returned by a call read differently at the end of the run.
@@ -150,7 +159,8 @@ type Sim struct {
 
 	pools map[uintptr][]poolItem
 	conds map[uintptr][]*Task
-	clock int64 // accumulated jumps + sleeps, ns
+	clock int64   // accumulated jumps + sleeps, ns
+	bg    []*Task // library goroutines that outlived the run they were started in
 
 	// per run
 	spec     *RunSpec
@@ -207,6 +217,15 @@ func taskMain(t *Task) {
 func setBudget(t *Task, b int64) { t.budget = b }
 
 //go:norace
+func getPendingN() int { return pendingN }
+
+//go:norace
+func takePending(i int) *Task { return pendingBG[i] }
+
+//go:norace
+func clearPending() { pendingN = 0 }
+
+//go:norace
 func taskSteps(t *Task) int64 { return t.steps }
 
 // Run executes one run to completion (or deadlock / step bound).
@@ -246,40 +265,82 @@ func (s *Sim) Run(spec *RunSpec) *RunResult {
 			}
 		})
 	}
+	ncallers := len(s.tasks)
+	// adopt background goroutines of the library (their goroutines already exist, parked)
+	adopt := func(t *Task) {
+		t.ID = len(s.tasks)
+		t.pausedInCall = false
+		s.tasks = append(s.tasks, t)
+		s.live = append(s.live, t)
+	}
+	for _, t := range s.bg {
+		adopt(t)
+	}
+	s.bg = s.bg[:0]
+	for i := 0; i < getPendingN(); i++ {
+		adopt(takePending(i))
+	}
+	clearPending()
+	s.res.Background = len(s.tasks) - ncallers
 	s.initPolicy()
-	for _, t := range s.tasks {
+	for _, t := range s.tasks[:ncallers] {
 		go taskMain(t)
 	}
 
 	bound := 1000*spec.Est + 1000000
 	fairAt := 2*spec.Est + 2000
+	graceEnd := int64(-1) // step at which library goroutines stop being scheduled after the last caller returned
 	for {
 		if s.runSteps() > bound {
 			if s.unfinishedCallers() == 0 {
-				s.res.Leaked = s.unfinished()
 				break
 			}
 			s.res.NoReturn = true
 			s.res.Detail = s.describe("step bound exceeded")
 			break
 		}
+		if s.unfinishedCallers() == 0 {
+			// all callers returned: library goroutines get a bounded grace period,
+			// then they are parked and carried over to the next run of this process
+			if graceEnd < 0 {
+				g := spec.Est/2 + 300
+				if g > 20000 {
+					g = 20000
+				}
+				graceEnd = s.runSteps() + g
+			}
+			if s.runSteps() >= graceEnd {
+				break
+			}
+		}
 		if !s.fair && !s.explicit && s.runSteps() > fairAt {
 			s.fair = true
 		}
+		s.maybeFireTimer()
 		t, budget := s.pick()
 		if t == nil {
 			if s.unfinishedCallers() == 0 {
-				// library-spawned goroutines that never finish are a leak, not a
-				// deadlock of a caller: they are abandoned and counted.
-				s.res.Leaked = s.unfinished()
 				break
+			}
+			if s.advanceToNextWake() {
+				continue
 			}
 			s.res.Deadlock = true
 			s.res.Detail = s.describe("no runnable task")
 			break
 		}
+		if graceEnd >= 0 && budget > graceEnd-s.runSteps() {
+			budget = graceEnd - s.runSteps()
+		}
 		s.resumeTask(t, budget)
 	}
+	// whatever the library left running is background state of the process
+	for _, t := range s.live {
+		if t.ID >= len(spec.Tasks) {
+			s.bg = append(s.bg, t)
+		}
+	}
+	s.res.Leaked = len(s.bg)
 	setCur(nil)
 	s.res.Steps = s.runSteps()
 	s.res.RaceDelta = RaceErrors() - races0
@@ -331,7 +392,7 @@ func (s *Sim) describe(what string) string {
 	d := what + ":"
 	for _, t := range s.live {
 		st, begun, done, in := taskCounters(t)
-		state := [...]string{"runnable", "blocked", "condwait", "done"}[t.state]
+		state := [...]string{"runnable", "blocked", "condwait", "done", "sleeping"}[t.state]
 		d += fmt.Sprintf(" task%d{%s steps=%d calls=%d/%d inCall=%v blockedOn=%#x}", t.ID, state, st, done, begun, in, t.blockAddr)
 	}
 	return d
@@ -343,6 +404,8 @@ func (s *Sim) runnable(t *Task) bool {
 		return true
 	case stBlocked:
 		return readProgress() != t.blockEpoch
+	case stSleeping:
+		return s.Now() >= t.wakeAt
 	}
 	return false
 }
@@ -384,7 +447,7 @@ func (s *Sim) resumeTask(t *Task, budget int64) {
 		}
 	}
 	s.last = t
-	if t.state == stBlocked {
+	if t.state == stBlocked || t.state == stSleeping {
 		t.state = stRunnable
 	}
 	start := readSteps()
@@ -440,7 +503,8 @@ func (s *Sim) handle(req request) {
 		t.pend.n = s.clockRead()
 	case ReqSleep:
 		if req.n > 0 {
-			s.clock += req.n
+			t.state = stSleeping
+			t.wakeAt = s.Now() + req.n
 		}
 	case ReqRand:
 		t.pend.n = int64(s.randDraw() >> 1)
@@ -483,7 +547,23 @@ func (s *Sim) handle(req request) {
 //go:norace
 func Go(fn func()) {
 	if cur == nil {
-		go fn()
+		if unmanaged {
+			// no scheduler in this process (coverage-guided corpus growth): behave
+			// exactly like the go statement
+			go fn()
+			return
+		}
+		// outside a run (package initialisation): the goroutine becomes a
+		// background task that the next run adopts; it must not run unmanaged
+		if pendingN >= len(pendingBG) {
+			return
+		}
+		bt := &Task{parent: -1}
+		bt.resume = make(chan reply)
+		bt.body = func(*Task) { fn() }
+		go taskMain(bt)
+		pendingBG[pendingN] = bt
+		pendingN++
 		return
 	}
 	nt := &Task{parent: -1}
@@ -640,6 +720,16 @@ func (s *Sim) pickExplicit(run []*Task) (*Task, int64) {
 		if s.segIdx >= len(segs) {
 			break
 		}
+		if segs[s.segIdx][0] < 0 {
+			// pseudo segment: the simulated clock advances (a timer fires / a sleeper wakes)
+			s.advanceClock(segs[s.segIdx][1])
+			s.segIdx++
+			run = s.runnables()
+			if len(run) == 0 {
+				return nil, 0
+			}
+			continue
+		}
 		s.segLeft = segs[s.segIdx][1]
 		s.segIdx++
 	}
@@ -765,4 +855,61 @@ func (s *Sim) PoolSizes() int {
 // poolRaceAddr does), used by the pool stub for race annotations.
 func EfaceData(x any) uintptr {
 	return uintptr((*[2]unsafe.Pointer)(unsafe.Pointer(&x))[1])
+}
+
+// ---------------------------------------------------------------- sleepers and timers
+
+func (s *Sim) advanceClock(d int64) {
+	if d <= 0 {
+		return
+	}
+	s.clock += d
+	s.res.Faults.TimerFire++
+	s.res.Trace.Segs = append(s.res.Trace.Segs, [2]int64{-1, d})
+}
+
+func (s *Sim) nextWake() (int64, bool) {
+	var best int64
+	found := false
+	for _, t := range s.live {
+		if t.state == stSleeping && (!found || t.wakeAt < best) {
+			best, found = t.wakeAt, true
+		}
+	}
+	return best, found
+}
+
+// advanceToNextWake: nothing is runnable but some task sleeps: discrete-event
+// jump of the simulated clock to the earliest wake-up.
+func (s *Sim) advanceToNextWake() bool {
+	if s.explicit {
+		// in explicit replay clock advances are part of the recorded trace; after
+		// the trace is exhausted fall back to the rule
+	}
+	w, ok := s.nextWake()
+	if !ok {
+		return false
+	}
+	d := w - s.Now()
+	if d <= 0 {
+		return true
+	}
+	s.advanceClock(d)
+	return true
+}
+
+// maybeFireTimer injects "time passes": with the policy's probability the
+// clock jumps to the next sleeper's wake-up while callers are in flight, so
+// periodic library goroutines (janitors, refreshers) run in the middle of calls.
+func (s *Sim) maybeFireTimer() {
+	if s.explicit || s.spec.Policy.TimerP <= 0 {
+		return
+	}
+	w, ok := s.nextWake()
+	if !ok || w <= s.Now() {
+		return
+	}
+	if s.rng.Float() < s.spec.Policy.TimerP {
+		s.advanceClock(w - s.Now())
+	}
 }
